@@ -1381,7 +1381,12 @@ class RestAPI(object):
                     return aws_error("MissingRequiredParameter"), 400
 
 
-                error = params.get("error")
+                """
+                The error name is optional, but the outcome of the Task is
+                decided from it, so a missing or empty name must still fail
+                the Task rather than complete it successfully.
+                """
+                error = params.get("error") or "States.TaskFailed"
                 cause = params.get("cause")
 
                 """
